@@ -27,6 +27,9 @@ pub struct RefSign {
     pub stream: Vec<u8>,
     /// Only the lock-step oracle of C13 needs the stream; shadows that merely bound a search leave it off.
     pub track_stream: bool,
+    /// The last configuration attempt failed and no block has been digested since: whether the sign still knows
+    /// the type and size it was told in the failed attempt is not in the statement (don't-care 4).
+    pub cfg_open: bool,
 }
 
 /// What the statement fixes about `pages()` after a step.
@@ -57,7 +60,7 @@ pub enum Open {
 
 impl RefSign {
     pub fn new(addr: u16, automatic: bool) -> Self {
-        RefSign { addr, automatic, state: State::Unconfigured, w: 0, h: 0, typ: None, pages: vec![], page_dims: vec![], buf: vec![], count: 0, bad_page: false, clean: true, stream: vec![], track_stream: false }
+        RefSign { addr, automatic, state: State::Unconfigured, w: 0, h: 0, typ: None, pages: vec![], page_dims: vec![], buf: vec![], count: 0, bad_page: false, clean: true, stream: vec![], track_stream: false, cfg_open: false }
     }
 
     fn reset(&mut self) {
@@ -136,7 +139,8 @@ impl RefSign {
                         self.pages.clear();
                         self.page_dims.clear();
                         self.bad_page = false;
-                        self.clean = true;
+                        // with a configuration of open standing (don't-care 4) nothing about the transfer is fixed
+                        self.clean = !self.cfg_open;
                         self.stream.clear();
                     }
                     Operation::ShowLoadedPage => self.state = State::PageShowInProgress,
@@ -157,6 +161,7 @@ impl RefSign {
                                 self.h = h;
                                 self.typ = ref_block_type(d);
                                 self.count += 1;
+                                self.cfg_open = false;
                             }
                         }
                     }
@@ -184,6 +189,9 @@ impl RefSign {
                 match self.state {
                     State::ConfigInProgress => {
                         self.state = if matched { State::ConfigReceived } else { State::ConfigFailed };
+                        if !matched {
+                            self.cfg_open = true;
+                        }
                         self.flush();
                         self.count = 0;
                         (None, Open::No)
